@@ -51,7 +51,9 @@ FaultKinds == {"undefined-symbol", "duplicate-label", "duplicate-constant", "dup
                "unencodable-character", "word-at-odd-address", "second-link", "self-dependent-link",
                "backward-dot-assign", "missing-include", "missing-insert", "local-label-external",
                "label-in-repeat", "cyclic-definition", "align-zero", "invalid-rad50-character",
-               "rad50-code-too-large", "overlong-tape-name", "excess-hash"}
+               "rad50-code-too-large", "overlong-tape-name", "excess-hash",
+               \* structural directives inside a .repeat whose count is a forward reference (the body is compiled late)
+               "end-in-lazy-repeat", "once-in-lazy-repeat", "include-in-lazy-repeat", "rad50-digits-overflow"}
 
 (* ---- terminal classes (the renderer's table has one entry per name) ---- *)
 AtomClasses == {"oct", "dec", "d89", "cnum", "caretnum", "negnum", "bignum", "name", "namecolon", "local", "localcolon",
